@@ -61,12 +61,45 @@ func r11RunDSL(c *an.Ctx) {
 		call  *ast.CallExpr
 		phase int
 		form  string
+		via   bool // the call is a call of a helper that contains the phase call
 	}
 	var calls []pc
-	locs, cs := g.FindCalls(func(call *ast.CallExpr) bool { _, _, ok := phaseOfCall(info, call); return ok })
+	// a helper extracted from RunDSL since the reference tree stands for the phase calls it contains
+	helperPhases := func(call *ast.CallExpr) [][2]string {
+		h := c.FuncOfObj(an.Callee(info, call))
+		if h == nil || !c.IsNewFunc(h) {
+			return nil
+		}
+		var out [][2]string
+		seen := map[string]bool{}
+		c.InspectAll(h, func(hf *an.Func, n ast.Node) bool {
+			if hc, ok := n.(*ast.CallExpr); ok {
+				if p, form, ok := phaseOfCall(hf.Pkg.TypesInfo, hc); ok {
+					k := fmt.Sprintf("%d/%s", p, form)
+					if !seen[k] {
+						seen[k] = true
+						out = append(out, [2]string{fmt.Sprint(p), form})
+					}
+				}
+			}
+			return true
+		})
+		return out
+	}
+	locs, cs := g.FindCalls(func(call *ast.CallExpr) bool {
+		_, _, ok := phaseOfCall(info, call)
+		return ok || len(helperPhases(call)) > 0
+	})
 	for i, l := range locs {
-		p, form, _ := phaseOfCall(info, cs[i])
-		calls = append(calls, pc{l, cs[i], p, form})
+		if p, form, ok := phaseOfCall(info, cs[i]); ok {
+			calls = append(calls, pc{l, cs[i], p, form, false})
+			continue
+		}
+		for _, hp := range helperPhases(cs[i]) {
+			ph := 0
+			fmt.Sscan(hp[0], &ph)
+			calls = append(calls, pc{l, cs[i], ph, hp[1], true})
+		}
 	}
 	// R11.1 ORDER
 	var orderProbs []string
@@ -141,6 +174,9 @@ func r11RunDSL(c *an.Ctx) {
 				rng = r
 				break
 			}
+		}
+		if rng == nil && pcall.via && pcall.phase == 0 {
+			continue // the execute loop lives in the helper (R11.5 looks at it there)
 		}
 		if rng == nil {
 			loopProbs = append(loopProbs, fmt.Sprintf("%s call at %s is not inside a range over the roots", phaseNames[pcall.phase], c.Position(pcall.call.Pos())))
@@ -285,6 +321,50 @@ func r11RunDSL(c *an.Ctx) {
 	for _, d := range rootsDefs {
 		for _, a := range calls {
 			if a.phase == 0 && g.Reaches(a.loc, d.loc, nil) && g.Reaches(d.loc, a.loc, nil) {
+				reread = true
+			}
+		}
+	}
+	if !reread {
+		// the execute loop may have moved into a helper: the same test in the helper's own graph, and the list
+		// the helper returns must be the one RunDSL goes on with
+		for _, h := range c.WithNewHelpers(f)[1:] {
+			hinfo := h.Pkg.TypesInfo
+			hg := an.NewCFG(hinfo, h.Decl.Body)
+			var defs, execs []an.Loc
+			for _, b := range hg.Live() {
+				for i, n := range b.Nodes {
+					if as, ok := n.(*ast.AssignStmt); ok && len(as.Rhs) == 1 {
+						if call, ok := an.Unparen(as.Rhs[0]).(*ast.CallExpr); ok && an.CalleeName(hinfo, call) == "(*"+an.P("eval")+".DSLContext).Roots" {
+							defs = append(defs, an.Loc{Block: b, Idx: i})
+						}
+					}
+					for _, call := range an.CallsIn(n) {
+						if p, _, ok := phaseOfCall(hinfo, call); ok && p == 0 {
+							execs = append(execs, an.Loc{Block: b, Idx: i})
+						}
+					}
+				}
+			}
+			inLoop := false
+			for _, d := range defs {
+				for _, a := range execs {
+					if hg.Reaches(a, d, nil) && hg.Reaches(d, a, nil) {
+						inLoop = true
+					}
+				}
+			}
+			// RunDSL assigns the helper's result to its roots variable
+			assigned := false
+			ast.Inspect(f.Decl.Body, func(n ast.Node) bool {
+				if as, ok := n.(*ast.AssignStmt); ok && len(as.Rhs) == 1 && len(as.Lhs) >= 1 {
+					if call, ok := an.Unparen(as.Rhs[0]).(*ast.CallExpr); ok && an.Callee(info, call) == types.Object(h.Obj) && an.ObjOf(info, as.Lhs[0]) == rootsVar {
+						assigned = true
+					}
+				}
+				return true
+			})
+			if inLoop && assigned {
 				reread = true
 			}
 		}
